@@ -147,5 +147,5 @@ func c23ConcExec(c c23ConcCase, x *pbt.Ctx) error {
 
 func TestC23Concurrent(t *testing.T) {
 	pbt.Run(t, "C23", "block trees of 6-16 blocks with 1-3 extra spends per block; 1-3 goroutines submit copies of all their transactions over and over (Chain.ValidateTx) while another delivers the blocks in order; after all calls have returned no pooled transaction may be in a main-chain block; scheduler-chosen interleaving; non-trivial = more submissions than transactions and at least one transaction confirmed; distinct = case JSON",
-		pbt.Options{Sub: "concurrent", Journal: true, Checks: pbt.Per(60, 6000)}, c23ConcGen, c23ConcExec)
+		pbt.Options{Sub: "concurrent", Journal: true, Checks: pbt.Per(400, 8000)}, c23ConcGen, c23ConcExec)
 }
